@@ -76,6 +76,7 @@ C09(c) == /\ \A i \in DOMAIN c.obs.mocks : c.obs.mocks[i].found /\ GenericKept(c
 SrcImported(o) == \E i \in DOMAIN o.imports : o.imports[i].path = o.srcPath
 C10(c) == LET o == c.obs IN
     /\ o.srcMisqualified = 0
+    /\ o.misresolved = 0      \* no reference resolves to a same-named type of another package than the interface's
     /\ IF o.inPlace
        THEN ~SrcImported(o) /\ o.srcQualified = 0
        ELSE /\ o.srcBare = 0
